@@ -1,6 +1,8 @@
 package main
 
 import (
+	"fmt"
+	"strings"
 	"go/constant"
 	"go/token"
 	"go/types"
@@ -1711,4 +1713,54 @@ func pathsBetween(fn *ssa.Function, from, to *ssa.BasicBlock, budget int, visit 
 	}
 	dfs(from, nil, env{}, nil, nil, nil, map[*ssa.BasicBlock]bool{})
 	return ok
+}
+
+// termOf renders the computation of v as a term over parameters, constants
+// and callee names (receiver call chains included), for sibling comparison.
+func termOf(v ssa.Value, depth int) string {
+	if depth <= 0 {
+		return "…"
+	}
+	switch x := v.(type) {
+	case *ssa.Parameter:
+		return x.Name()
+	case *ssa.Const:
+		if x.Value == nil {
+			return "nil"
+		}
+		return x.Value.String()
+	case *ssa.Extract:
+		return termOf(x.Tuple, depth) + fmt.Sprintf("#%d", x.Index)
+	case *ssa.Convert:
+		return "conv(" + termOf(x.X, depth-1) + ")"
+	case *ssa.ChangeType:
+		return termOf(x.X, depth)
+	case *ssa.MakeInterface:
+		return termOf(x.X, depth)
+	case *ssa.BinOp:
+		return x.Op.String() + "(" + termOf(x.X, depth-1) + "," + termOf(x.Y, depth-1) + ")"
+	case *ssa.UnOp:
+		if f, base := loadedField(x); f != nil {
+			return termOf(base, depth-1) + "." + f.Name()
+		}
+		return x.Op.String() + "(" + termOf(x.X, depth-1) + ")"
+	case *ssa.Call:
+		name := "call"
+		if o := calleeObj(x); o != nil {
+			name = o.Name()
+		} else if b, ok := x.Call.Value.(*ssa.Builtin); ok {
+			name = b.Name()
+		}
+		var args []string
+		if x.Call.IsInvoke() {
+			args = append(args, termOf(x.Call.Value, depth-1))
+		}
+		for _, a := range x.Call.Args {
+			args = append(args, termOf(a, depth-1))
+		}
+		return name + "(" + strings.Join(args, ",") + ")"
+	case *ssa.Alloc:
+		return "new"
+	}
+	return fmt.Sprintf("%T", v)
 }
